@@ -57,6 +57,10 @@ def gen(tier, rng, harness=None, driver=None):
     # and terminator kind, constants and constant expressions, the specialised debug-info nodes with their fields
     for name, text, frags in catalog.all_entries(regen.enum_table(harness)):
         lines.append("!mod.keeps %s %s" % (hx("\x1f".join(frags or [])), hx(text)))
+    # string-valued fields at every site that prints one (~65 sites: section, gc, comdat, syncscope of each of the five atomic kinds, asm strings, attribute
+    # strings, metadata strings ...): a string with a quote, a backslash, control and non-UTF-8 bytes is printed, parsed, and must come back unchanged
+    for sv in (b'wave"front\n', b"\\", b"a\x00b", b"\xff\x7f", b"tab\there", b"plain"):
+        lines.append("!rt.strsites %s" % sv.hex())
     for m, text, sk in modprops.gen_modules(rng, n):
         lines.append("!mod.fix %s %s" % (hx(sk), hx(text)))
         t2, _ = modgen.render(m, rng, shuffle=True)
